@@ -56,7 +56,8 @@ def seeded_variants():
         pp = os.path.join(root, d, "patch.diff")
         if os.path.exists(mp) and os.path.exists(pp):
             m = json.load(open(mp))
-            out.append(dict(id="seeded-" + d, props=[m["property"]], rule=None, expect="fire", edits=[], patch=pp, note="independent sub-agent change"))
+            out.append(dict(id="seeded-" + d, props=m.get("replay_props") or [m["property"]], rule=None, expect="fire", edits=[], patch=pp,
+                            note="independent sub-agent change"))
     return out
 
 
